@@ -473,7 +473,7 @@ func genWorldPlan(prop string, master uint64, run int) Plan {
 	case "C05":
 		pl.Cfg = neutralConfig(r)
 		b.g.idna = 2 // IDNA hosts are judged with the implementation's own domain-to-ASCII (model.ToASCIIHook)
-		u := b.parse(false)
+		u := b.parse(r.Chance(1, 6)) // "every parsed URL": also one parsed against a base string
 		sw := setterWeights(r, []int{3, 2, 2, 3, 3, 3, 3, 2, 2})
 		for i := 0; i < n; i++ {
 			b.set(u, r.Weighted(sw))
